@@ -5,6 +5,8 @@ import (
 	"go/ast"
 	"go/token"
 	"go/types"
+	"golang.org/x/tools/go/cfg"
+	"sort"
 	"strings"
 )
 
@@ -46,6 +48,8 @@ func checkC11(r *Run) {
 	r.Rule("C11.R1.GUARD", "juror.approvals is read and written only with juror.mu held", 2)
 	r.Rule("C11.R1.memory", "one juror per member; the already-approved test and the recording append share one critical section; every non-rejecting path records the key", 3)
 	r.Rule("C11.R2.quorum", "propose returns a key with a nil error only behind a nil consultQuorum(ctx, res.Key, quorum) on a quorum built without error in the same iteration, after res.Key = idToPropose() and res.ClusterKey = cfg.ClusterKey", 5)
+	r.Rule("C11.R2.failure", "every iteration of the proposal loop that does not return stores a non-nil error in the named result (so the trailing 'return res, err' cannot report success), and the loop runs at least once", 2)
+	r.Rule("C11.R5.clusterkey", "cluster.Open hands pledge.Arbitrate a configuration whose ClusterKey was assigned from the cluster's key on every path; a joining node adopts the ClusterKey of the pledge response", 3)
 	r.Rule("C11.R3.failures", "consultQuorum asks every quorum member, each goroutine returns the Send error unchanged, and the result is wg.Wait()", 3)
 	r.Rule("C11.R4.monotone", "responsible._proposedKey is assigned only in idToPropose, by highestNodeID(snapshot)+1 or by ++", 2)
 
@@ -166,6 +170,7 @@ func checkC11(r *Run) {
 	}
 
 	checkPropose(r, p)
+	checkClusterKey(r, p)
 	checkConsultQuorum(r, p)
 
 	// ---- R4
@@ -323,6 +328,172 @@ func checkPropose(r *Run, p *Prog) {
 		}
 	}
 	r.ObPath("C11.R2.quorum", "the response carries the coordinator's cluster key", p.Position(fn.Pos()), okCK, "a joining node must receive that cluster's key", p4)
+
+	// ---- R2.failure: an iteration that did not return leaves a non-nil error behind
+	var errObj types.Object
+	if fn.Type.Results != nil {
+		for _, f := range fn.Type.Results.List {
+			for _, nm := range f.Names {
+				if o := fn.Pkg.TypesInfo.Defs[nm]; o != nil && isErrorType(o.Type()) {
+					errObj = o
+				}
+			}
+		}
+	}
+	loop := enclosingLoop(fn, cc[0])
+	varReturn := false
+	for _, ex := range c.Exits() {
+		if ex.Return != nil && len(ex.Return.Results) == 2 && objOf(fn, ex.Return.Results[1]) == errObj && errObj != nil {
+			varReturn = true
+		}
+	}
+	switch {
+	case !varReturn:
+		// every return states its error explicitly: nothing to decide
+		r.ObTrivial("C11.R2.failure", "propose has no return of a variable error after the proposal loop", p.Position(fn.Pos()), true, "")
+	case errObj == nil || loop == nil:
+		r.Undecide("C11.R2.failure: propose returns a variable error but the named result / proposal loop was not identified")
+	default:
+		path := c.leavesIterationWithNilErr(loop, errObj)
+		r.ObPath("C11.R2.failure", "every iteration of propose that does not return leaves a non-nil error in the named result", p.Position(loop.Pos()), path == nil,
+			"the final 'return res, err' then reports success for a key no quorum approved", path)
+		// the loop runs at least once: MaxProposals is validated non-zero
+		val := p.Func(pledgePkg, "Config", "Validate")
+		okVal := false
+		if val != nil {
+			inspectNoLit(val.Body, func(x ast.Node) bool {
+				if call, ok := x.(*ast.CallExpr); ok {
+					if f := CalleeFunc(val, call); f != nil && (f.Name() == "NonZero" || f.Name() == "Positive" || f.Name() == "GreaterThan") {
+						for _, a := range call.Args {
+							if sel, ok := ast.Unparen(a).(*ast.SelectorExpr); ok && sel.Sel.Name == "MaxProposals" {
+								okVal = true
+							}
+						}
+					}
+				}
+				return true
+			})
+		}
+		r.Ob("C11.R2.failure", "Config.Validate rejects MaxProposals == 0 (the proposal loop runs at least once)", p.Position(fn.Pos()), okVal, "with zero iterations propose returns (zero key, nil)")
+	}
+}
+
+// leavesIterationWithNilErr searches the body of loop for a path from the start of an
+// iteration to its end (back edge, break) on which the error variable errObj is not known
+// to be non-nil: known means assigned from a value tested non-nil on the path (directly,
+// or through errors.Combine), or itself tested non-nil after its last assignment.
+func (c *FuncCFG) leavesIterationWithNilErr(loop ast.Stmt, errObj types.Object) []string {
+	fn := c.Fn
+	var body *cfg.Block
+	for _, b := range c.G.Blocks {
+		if b.Stmt == loop && (b.Kind.String() == "RangeBody" || b.Kind.String() == "ForBody") {
+			body = b
+		}
+	}
+	if body == nil {
+		return []string{"loop body block not found"}
+	}
+	type state struct {
+		b      *cfg.Block
+		known  string // sorted object names known non-nil (small)
+		errSet bool
+	}
+	seen := map[state]bool{}
+	var found []string
+	var walk func(b *cfg.Block, nonNil map[types.Object]bool, errKnown bool, trail []string) bool
+	key := func(m map[types.Object]bool) string {
+		var ks []string
+		for o, v := range m {
+			if v {
+				ks = append(ks, o.Name())
+			}
+		}
+		sort.Strings(ks)
+		return strings.Join(ks, ",")
+	}
+	walk = func(b *cfg.Block, nonNil map[types.Object]bool, errKnown bool, trail []string) bool {
+		st := state{b, key(nonNil), errKnown}
+		if seen[st] {
+			return false
+		}
+		seen[st] = true
+		nn := map[types.Object]bool{}
+		for k, v := range nonNil {
+			nn[k] = v
+		}
+		for _, n := range b.Nodes {
+			if _, ok := n.(*ast.ReturnStmt); ok {
+				return false
+			}
+			as, ok := n.(*ast.AssignStmt)
+			if !ok {
+				continue
+			}
+			for i, l := range as.Lhs {
+				o := objOf(fn, l)
+				if o == nil {
+					continue
+				}
+				var rhs ast.Expr
+				if len(as.Lhs) == len(as.Rhs) {
+					rhs = as.Rhs[i]
+				}
+				val := false
+				if rhs != nil {
+					if ro := objOf(fn, rhs); ro != nil && nn[ro] {
+						val = true
+					}
+					if call, ok := ast.Unparen(rhs).(*ast.CallExpr); ok {
+						if f := CalleeFunc(fn, call); f != nil && f.Name() == "Combine" {
+							for _, a := range call.Args {
+								if ao := objOf(fn, a); ao != nil && nn[ao] {
+									val = true
+								}
+							}
+						}
+					}
+				}
+				nn[o] = val
+				if o == errObj {
+					errKnown = val
+					trail = append(trail, fmt.Sprintf("%s assigned at %s (known non-nil: %v)", o.Name(), posOf(c.P, as), val))
+				}
+			}
+		}
+		cond := Cond(b)
+		for si, s := range b.Succs {
+			nn2, ek := nn, errKnown
+			if cond != nil {
+				if o, trueMeansNil, ok := nilCompare(fn, cond); ok {
+					isNil := (si == 0) == trueMeansNil
+					nn2 = map[types.Object]bool{}
+					for k, v := range nn {
+						nn2[k] = v
+					}
+					nn2[o] = !isNil
+					if o == errObj {
+						ek = !isNil
+					}
+				}
+			}
+			if s.Stmt == loop && s != body {
+				// leaving the iteration: loop head (back edge / continue), post, or done (break)
+				if !ek {
+					found = append(trail, fmt.Sprintf("iteration left through block %q with %s possibly nil", s.Kind.String(), errObj.Name()))
+					return true
+				}
+				continue
+			}
+			if walk(s, nn2, ek, trail) {
+				return true
+			}
+		}
+		return false
+	}
+	if walk(body, map[types.Object]bool{}, false, nil) {
+		return found
+	}
+	return nil
 }
 
 func checkConsultQuorum(r *Run, p *Prog) {
@@ -436,4 +607,95 @@ func checkConsultQuorum(r *Run, p *Prog) {
 		return true
 	})
 	r.Ob("C11.R3.failures", "consultQuorum returns the group's Wait() result", p.Position(fn.Pos()), okWait && nRet > 0, "swallowing a juror failure approves a key without a full quorum")
+}
+
+// checkClusterKey decides C11.R5 in cluster.Open.
+func checkClusterKey(r *Run, p *Prog) {
+	const clusterPkg = "aspen/internal/cluster"
+	fn := p.Func(clusterPkg, "", "Open")
+	arb := p.Func(pledgePkg, "", "Arbitrate")
+	pledgeFn := p.Func(pledgePkg, "", "Pledge")
+	keyFn := p.Func(clusterPkg, "Cluster", "Key")
+	if fn == nil || arb == nil || pledgeFn == nil || keyFn == nil {
+		r.Undecide("C11.R5: cluster.Open / pledge.Arbitrate / pledge.Pledge / Cluster.Key not resolved")
+		return
+	}
+	c := p.CFG(fn)
+	isKeyValue := func(e ast.Expr) bool {
+		e = ast.Unparen(e)
+		if call, ok := e.(*ast.CallExpr); ok {
+			return IsFunc(Callee(fn, call), keyFn)
+		}
+		if o := objOf(fn, e); o != nil {
+			if rhs, _, ok := varDefinedBy(fn, o); ok {
+				if call, ok := ast.Unparen(rhs).(*ast.CallExpr); ok {
+					return IsFunc(Callee(fn, call), keyFn)
+				}
+			}
+		}
+		return false
+	}
+	calls := CallsIn(fn, calleeIs(arb))
+	for i, call := range calls {
+		if len(call.Args) != 1 {
+			continue
+		}
+		want := types.ExprString(call.Args[0]) + ".ClusterKey"
+		isAssign := func(n ast.Node) bool {
+			as, ok := n.(*ast.AssignStmt)
+			if !ok || len(as.Lhs) != 1 || len(as.Rhs) != 1 {
+				return false
+			}
+			return types.ExprString(as.Lhs[0]) == want && isKeyValue(as.Rhs[0])
+		}
+		cp, ok := c.Locate(call)
+		if !ok {
+			r.Undecide("C11.R5: Arbitrate call not located")
+			continue
+		}
+		q, vis := c.ReachAvoiding([]Point{c.Entry()}, nil, isAssign)
+		var path []string
+		if vis[cp] {
+			path = q.PathTo(cp)
+		}
+		r.ObPath("C11.R5.clusterkey", fmt.Sprintf("Arbitrate call #%d in cluster.Open receives %s = c.Key()", i+1, want), p.Position(call.Pos()), !vis[cp],
+			"the jurors and the responsible of this member answer pledges with the configuration they were given; without the assignment on the same configuration value a joiner receives the zero cluster key", path)
+	}
+	if len(calls) < 2 {
+		r.Undecide("C11.R5: expected two Arbitrate calls in cluster.Open (restart and bootstrap), found %d", len(calls))
+	}
+	// the joiner adopts the key of the pledge response
+	n := 0
+	inspectNoLit(fn.Body, func(x ast.Node) bool {
+		call, ok := x.(*ast.CallExpr)
+		if !ok {
+			return true
+		}
+		f := CalleeFunc(fn, call)
+		if f == nil || f.Name() != "SetClusterKey" || len(call.Args) != 2 {
+			return true
+		}
+		n++
+		arg := ast.Unparen(call.Args[1])
+		good, what := false, types.ExprString(arg)
+		if sel, ok := arg.(*ast.SelectorExpr); ok && sel.Sel.Name == "ClusterKey" {
+			if o := objOf(fn, sel.X); o != nil {
+				if rhs, _, ok := varDefinedBy(fn, o); ok {
+					if pc, ok := ast.Unparen(rhs).(*ast.CallExpr); ok && IsFunc(Callee(fn, pc), pledgeFn) {
+						good = true
+					}
+				}
+			}
+		} else if o := objOf(fn, arg); o != nil {
+			if rhs, _, ok := varDefinedBy(fn, o); ok {
+				if gc, ok := ast.Unparen(rhs).(*ast.CallExpr); ok {
+					if g := CalleeFunc(fn, gc); g != nil && g.Name() == "New" && g.Pkg() != nil && strings.HasSuffix(g.Pkg().Path(), "uuid") {
+						good = true
+					}
+				}
+			}
+		}
+		r.Ob("C11.R5.clusterkey", fmt.Sprintf("SetClusterKey call #%d in cluster.Open", n), p.Position(call.Pos()), good, "the cluster key is either the one the pledge response carried or a fresh uuid for a bootstrapped cluster; got "+what)
+		return true
+	})
 }
